@@ -26,23 +26,19 @@ def mutant(prop, name, path, old, new, count=1):
 # ------------------------------------------------------------------ C20
 mutant("C20", "seterr-without-finally", "src/vector/_compute/spatial/eta.py",
        '''    with numpy.errstate(all="ignore"):
-        return _handler_of(v)._wrap_result(
+        return v._wrap_result(
             _flavor_of(v),
-            _handler_of(v)._wrap_dispatched_function(function)(
-                _lib_of(v),
-                *v.azimuthal.elements,
-                *v.longitudinal.elements,
+            v._wrap_dispatched_function(function)(
+                v.lib, *v.azimuthal.elements, *v.longitudinal.elements
             ),
             returns,
             1,
         )''',
        '''    old = numpy.seterr(all="ignore")
-    out = _handler_of(v)._wrap_result(
+    out = v._wrap_result(
         _flavor_of(v),
-        _handler_of(v)._wrap_dispatched_function(function)(
-            _lib_of(v),
-            *v.azimuthal.elements,
-            *v.longitudinal.elements,
+        v._wrap_dispatched_function(function)(
+            v.lib, *v.azimuthal.elements, *v.longitudinal.elements
         ),
         returns,
         1,
@@ -215,8 +211,9 @@ mutant("C16", "inplace-add-xy", "src/vector/_compute/planar/add.py",
 mutant("C16", "inplace-scale-polar", "src/vector/_compute/planar/scale.py",
        '''def rhophi(lib, factor, rho, phi):''',
        '''def rhophi(lib, factor, rho, phi):
-    if hasattr(rho, "__imul__") and hasattr(rho, "shape"):
-        rho *= 1.0''')
+    if hasattr(rho, "shape") and getattr(rho, "ndim", 0) >= 1:
+        rho *= lib.absolute(factor)
+        return (rho, rectify(lib, phi + (-0.5 * (lib.sign(factor) - 1) * lib.pi)))''')
 mutant("C16", "array-sets-behavior-on-operand", "src/vector/backends/awkward_constructors.py",
        '''    array_type = akarray.type''',
        '''    array_type = akarray.type
